@@ -475,9 +475,50 @@ func condTerm(c *jcond) string {
 	return fmt.Sprintf("(CField %s %s %s)", keyTerm(c.Key), ops[c.Op], vh.Z(c.Int))
 }
 
+// effective merges the write sequence: a later write of the same (series, time) replaces the
+// fields it carries and keeps the others (last write wins per (series, field, time)).
+func effective(ws []jpoint) []jpoint {
+	type k struct {
+		a, b string
+		t    int64
+	}
+	pos := map[k]int{}
+	var out []jpoint
+	for _, p := range ws {
+		key := k{p.T1, p.T2, p.T}
+		i, ok := pos[key]
+		if !ok {
+			pos[key] = len(out)
+			out = append(out, p)
+			continue
+		}
+		if p.F != nil {
+			out[i].F = p.F
+		}
+		if p.G != nil {
+			out[i].G = p.G
+		}
+	}
+	return out
+}
+
+// crossSeriesTies: two different series share a timestamp.
+func crossSeriesTies(ws []jpoint) bool {
+	seen := map[int64]string{}
+	for _, p := range ws {
+		id := p.T1 + "," + p.T2
+		if o, ok := seen[p.T]; ok && o != id {
+			return true
+		}
+		seen[p.T] = id
+	}
+	return false
+}
+
 func caseTerm(c *jcase) string {
-	pts := make([]string, len(c.Points))
-	for i, p := range c.Points {
+	eff := effective(c.Points)
+	pts := make([]string, len(eff))
+	for i, p := range eff {
 		pts[i] = fmt.Sprintf("(mkpt %s %s %s %s %s)", tagTerm(p.T1), tagTerm(p.T2), vh.Z(p.T*sec), optZ(p.F), optZ(p.G))
 	}
 	q := &c.Q
@@ -592,15 +633,33 @@ func genDataset(r *rand.Rand, c *jcase) (ties bool) {
 	if r.IntN(2) == 0 {
 		c.Flush = r.IntN(len(c.Points) + 1)
 	}
-	seen := map[int64]bool{}
-	ties = false
-	for _, p := range c.Points {
-		if seen[p.T] {
-			ties = true
+	// overwrites: re-write some already written (series, field, time) triples with new values
+	// AFTER the snapshot point (old value in the TSM file, new value in the cache), or, without a
+	// snapshot, inside the cache.
+	if n := len(c.Points); n > 0 && r.IntN(2) == 0 {
+		lim := n
+		if c.Flush > 0 {
+			lim = c.Flush
 		}
-		seen[p.T] = true
+		if c.Flush != 0 {
+			k := 1 + r.IntN(3)
+			for i := 0; i < k; i++ {
+				o := c.Points[r.IntN(lim)]
+				p := jpoint{T1: o.T1, T2: o.T2, T: o.T}
+				if o.F != nil && r.IntN(3) != 0 {
+					p.F = ip(val())
+				}
+				if o.G != nil && (p.F == nil || r.IntN(2) == 0) {
+					p.G = ip(val())
+				}
+				if p.F == nil && p.G == nil {
+					p.F = ip(val())
+				}
+				c.Points = append(c.Points, p)
+			}
+		}
 	}
-	return ties
+	return crossSeriesTies(c.Points)
 }
 
 var aggFns = []string{"count", "sum", "mean", "min", "max", "first", "last"}
@@ -696,14 +755,7 @@ func shapeSig(c *jcase) string {
 			hasMean = true
 		}
 	}
-	ties := false
-	seen := map[int64]bool{}
-	for _, p := range c.Points {
-		if seen[p.T] {
-			ties = true
-		}
-		seen[p.T] = true
-	}
+	ties := crossSeriesTies(c.Points)
 	switch {
 	case q.SLimit > 0:
 		return sigSlimit
@@ -772,6 +824,14 @@ func record(w *vh.W, c *jcase) {
 	w.Count("slimit/soffset", yn(q.SLimit > 0)+"/"+yn(q.SOffset > 0))
 	w.Count("shards", fmt.Sprint(map[bool]int{true: 2, false: 1}[c.Split > 0]))
 	w.Count("tsm-snapshot", yn(c.Flush >= 0))
+	ow := "none"
+	if len(effective(c.Points)) < len(c.Points) {
+		ow = "cache-over-cache"
+		if c.Flush > 0 {
+			ow = "cache-over-tsm"
+		}
+	}
+	w.Count("overwrites", ow)
 	w.Count("result-series", fmt.Sprint(len(c.Out)))
 	if c.Err != "" {
 		w.Count("impl-error", c.Err)
@@ -799,7 +859,7 @@ func runCase(w *vh.W, root string, c *jcase) {
 
 func main() {
 	w := vh.New("C22", "From Verif Require Import Base.Prelude Model.C22.\nFrom Coq Require Import Floats.SpecFloat.\nOpen Scope Z_scope.", "case", "check")
-	w.Rule = "datasets: measurement m, series t1,t2 in {a,b} (each present with p=5/6), integer fields f,g (a point carries f, g or both), values in [-4,4] or [-9,9], second-resolution times in [0,22); 3/4 of the datasets have globally distinct timestamps (<=16 points), 1/4 have 0-8 points per series with timestamps shared across series; written point by point to a real tsdb.Store with 1 or 2 shards (split 4..15 s), half of them with a cache snapshot to a TSM file after a random prefix. Queries (8 per dataset) are drawn from the grammar: raw f|g|f,g|g,f or 1-3 calls of count/sum/mean/min/max/first/last; explicit time bounds (>=|>, <|<=); optional and/or tree (depth<=2) of tag =/!= and field comparisons; GROUP BY time(1|2|3|5|7|10 s[, offset in -every-2..every+2]) with fill default/none/null/previous/linear/<int>; GROUP BY t1/t2/both; ORDER BY time DESC; LIMIT 1-4 [OFFSET 0-3]; SLIMIT 1-3 [SOFFSET 0-2]. Hand-picked regression cases come first. Non-trivial: the engine returned at least one row. Distinct: distinct Gallina terms (dataset+query+observed rows)."
+	w.Rule = "datasets: measurement m, series t1,t2 in {a,b} (each present with p=5/6), integer fields f,g (a point carries f, g or both), values in [-4,4] or [-9,9], second-resolution times in [0,22); 3/4 of the datasets have globally distinct timestamps (<=16 points), 1/4 have 0-8 points per series with timestamps shared across series; written point by point to a real tsdb.Store with 1 or 2 shards (split 4..15 s), half of them with a cache snapshot to a TSM file after a random prefix; half of the datasets then RE-WRITE 1-3 already written (series, time) points with new values for one or both fields (after the snapshot: old value in the TSM file, new one in the cache; the reference dataset is the last-write-wins merge per (series, field, time)). Queries (8 per dataset) are drawn from the grammar: raw f|g|f,g|g,f or 1-3 calls of count/sum/mean/min/max/first/last; explicit time bounds (>=|>, <|<=); optional and/or tree (depth<=2) of tag =/!= and field comparisons; GROUP BY time(1|2|3|5|7|10 s[, offset in -every-2..every+2]) with fill default/none/null/previous/linear/<int>; GROUP BY t1/t2/both; ORDER BY time DESC; LIMIT 1-4 [OFFSET 0-3]; SLIMIT 1-3 [SOFFSET 0-2]. Hand-picked regression cases come first. Non-trivial: the engine returned at least one row. Distinct: distinct Gallina terms (dataset+query+observed rows)."
 	root := os.Getenv("TMPDIR")
 	if root == "" {
 		root = "/tmp"
@@ -920,6 +980,19 @@ func corpus() []jcase {
 	add(two, 10, -1, q([]jsel{sel("sum", "f")}, 0, 20, func(x *jquery) { x.GroupTags = []string{"t1"}; x.SLimit = 1 }))
 	add(two, 0, -1, q([]jsel{sel("", "f")}, 10, 20, func(x *jquery) { x.GroupTags = []string{"t1"}; x.SLimit = 1 }))
 	add(two, 0, -1, q([]jsel{sel("", "f")}, 0, 20, func(x *jquery) { x.GroupTags = []string{"t1"}; x.SLimit = 1; x.SOffset = 1 }))
+	// overwrites: old value snapshotted to TSM, new value (and a new field) in the cache
+	over := []jpoint{pt("a", "a", 2, ip(1), ip(10)), pt("a", "a", 4, ip(2), ip(20)), pt("a", "b", 6, ip(3), nil),
+		pt("a", "a", 4, ip(7), nil), pt("a", "b", 6, ip(8), ip(80)), pt("a", "a", 2, nil, ip(-5))}
+	for _, desc := range []bool{false, true} {
+		desc := desc
+		add(over, 0, 3, q([]jsel{sel("", "f"), sel("", "g")}, 0, 20, func(x *jquery) { x.Desc = desc }))
+		add(over, 0, 3, q([]jsel{sel("count", "f"), sel("sum", "f"), sel("sum", "g")}, 0, 20, func(x *jquery) { x.Desc = desc }))
+		add(over, 0, 3, q([]jsel{sel("count", "f"), sel("sum", "f")}, 0, 20, func(x *jquery) { x.Desc = desc; x.Every = 4; x.Fill = "none" }))
+		add(over, 0, 3, q([]jsel{sel("first", "f")}, 0, 20, func(x *jquery) { x.Desc = desc; x.GroupTags = []string{"t2"} }))
+		add(over, 0, 3, q([]jsel{sel("last", "f")}, 0, 20, func(x *jquery) { x.Desc = desc; x.GroupTags = []string{"t2"} }))
+		add(over, 5, 3, q([]jsel{sel("last", "g"), sel("first", "g")}, 0, 20, func(x *jquery) { x.Desc = desc; x.Every = 10 }))
+		add(over, 0, -1, q([]jsel{sel("", "g"), sel("", "f")}, 0, 20, func(x *jquery) { x.Desc = desc; x.Limit = 2 }))
+	}
 	// F: fill(previous) under ORDER BY time DESC
 	add(two, 0, -1, q([]jsel{sel("sum", "f")}, 0, 6, func(x *jquery) { x.Every = 1; x.Fill = "previous"; x.Desc = true }))
 	return cs
